@@ -270,9 +270,35 @@ def _text_reaches_output(fn, st) -> str:
                             (isinstance(q, ast.Call) and n in q.args):
                         return True
         return False
+    def always(stmts) -> Optional[bool]:
+        """True: every path through stmts consumes the text; False: some path through a statement that mentions a consumer
+        skips it; None: no consumer in here."""
+        for y in stmts:
+            if consumes(y):
+                return True
+            if isinstance(y, ast.If):
+                a, b = always(y.body), always(y.orelse)
+                if a is True and b is True:
+                    return True
+                if a is not None or b is not None:
+                    return False
+            elif isinstance(y, (ast.With, ast.Try)):
+                a = always(y.body)
+                if a is not None:
+                    return a
+            elif isinstance(y, (ast.For, ast.While)):
+                if always(y.body) is not None:
+                    return False              # a loop may run zero times
+        return None
     for x in after:
         if consumes(x):
             return ""
+        r = always([x])
+        if r is True:
+            return ""
+        if r is False:
+            return (f"the text holding the id is bound to `{var}` but appended on some paths only (line {x.lineno}: {unparse(x)[:50]!r}): "
+                    f"when the condition fails the id has been allocated - its routine and its `case` are generated - but no .m file calls it")
         if any(isinstance(n, (ast.Continue, ast.Break, ast.Return, ast.Raise)) for n in ast.walk(x)):
             return (f"the text holding the id is bound to `{var}` and can be dropped before it is appended (line {x.lineno}: "
                     f"{unparse(x)[:50]!r}): the id is allocated and its routine generated, but no call site exists")
